@@ -108,9 +108,45 @@ def dyadic_int(vm, x):
     return mk_int(-((-x.N) / d))
 
 
+def float_int(vm, x):
+    """int(x) for an exact SFloat (truncation toward zero)."""
+    M = zint(x.M)
+    if x.e >= 0:
+        mag = mk_int(M * (2 ** x.e))
+    else:
+        from .models import int_divmod
+        mag = int_divmod(vm, SInt(M) if z3.is_expr(M) else M, 2 ** (-x.e))[0] if z3.is_expr(M) else M // 2 ** (-x.e)
+    if x.neg:
+        return mk_int(-zint(mag))
+    return mag
+
+
+def m_bin(vm, args, kw):
+    """bin(n) for a symbolic non-negative int whose bit length is fixed by its bounds: fresh bit characters tied to n by
+    one linear equation."""
+    v = args[0]
+    if not isinstance(v, SInt):
+        return bin(*args)
+    lo, hi = vm.path_bounds(v.e)
+    if lo is None or lo < 0:
+        if vm.truth(mk_bool(v.e < 0)):
+            raise Unsupported('bin() of a negative symbolic int')
+        lo = 0
+    klo, khi = lo.bit_length(), (hi.bit_length() if hi is not None else 520)
+    n = klo
+    while n < khi and not vm.truth(mk_bool(v.e < 2 ** n)):      # fork on the bit length
+        n += 1
+    if hi is None and n >= khi:
+        raise BoundExceeded('bin() of an int wider than 520 bits')
+    if n == 0:
+        return '0b0'
+    return mk_str([48, 98] + [z3.BitChar(v.e, n - 1 - i, i == 0) for i in range(n)])
+
+
 def rne_div(vm, num, den, name):
     """Int term q = round-half-even(num/den); num term >= 0, den python int > 0 (linear: q, r fresh)."""
-    q = vm._fresh_int(name + '_q', 0, None).e
+    nlo, nhi = vm.path_bounds(num)
+    q = vm._fresh_int(name + '_q', (nlo // den) if nlo is not None else 0, (nhi // den) if nhi is not None else None).e
     r = vm._fresh_int(name + '_r', 0, den - 1).e
     vm.add_pc(num == q * den + r)
     z3.DEFS[q.args[0]] = lambda model, num=num, den=den: z3.evaluate(num, model) // den
@@ -131,7 +167,10 @@ def int_truediv(vm, a, b):
     neg = vm.truth(mk_bool(ea < 0))
     mag = -ea if neg else ea
     # binade: 2**52 <= mag * 2**-e / b < 2**53   <=>  b*2**(52+e) <= mag < b*2**(53+e)
-    for e in range(-140, 300):
+    lo_, hi_ = vm.path_bounds(mag)
+    e_lo = max(-140, (max(lo_, 1) // b).bit_length() - 54) if lo_ is not None else -140
+    e_hi = min(300, (hi_ // b).bit_length() - 51) if hi_ is not None else 300
+    for e in range(e_lo, e_hi + 1):
         lo = b * 2 ** (52 + e) if 52 + e >= 0 else None
         if e >= -52:
             cond = z3.And(mag >= b * 2 ** (52 + e), mag < b * 2 ** (53 + e))
@@ -524,6 +563,7 @@ def sm_format(vm, o, args, kw):
 
 def install(vm):
     from . import models
+    vm.models[id(bin)] = m_bin
     vm.models[id(re.search)] = lambda vm_, a, k: m_re_search(vm_, a, k, False)
     vm.models[id(re.match)] = lambda vm_, a, k: m_re_search(vm_, a, k, True)
     for t in (SStr, str):
@@ -561,6 +601,8 @@ def install(vm):
     def m_int(vm_, args, kw):
         if args and isinstance(args[0], SDyadic):
             return dyadic_int(vm_, args[0])
+        if args and isinstance(args[0], SFloat):
+            return float_int(vm_, args[0])
         if args and isinstance(args[0], SStr):
             return models.int_of_ascii(vm_, args[0].a, '<sym>')
         return old_int(vm_, args, kw)
